@@ -3,7 +3,9 @@ package props
 import (
 	"encoding/json"
 	"fmt"
+	"hash/fnv"
 	"reflect"
+	"strconv"
 	"strings"
 	"sync"
 	"sync/atomic"
@@ -129,6 +131,46 @@ func (p *c10) Gen(ctx core.Ctx, i int) any {
 	return c
 }
 
+// CrossCheck: the bytes a fresh engine produces for one (program, entry point, data variant) are a function of those
+// alone, so every worker process - each with a different history of earlier renders - must have recorded the same hash.
+func (p *c10) CrossCheck(ctx core.Ctx, perWorker []map[string]int) []core.Violation {
+	seen := map[string]map[string][]int{} // key -> hash -> workers
+	for w, cells := range perWorker {
+		for c := range cells {
+			parts := strings.Split(c, "|")
+			if len(parts) != 3 || parts[0] != "xproc" {
+				continue
+			}
+			if seen[parts[1]] == nil {
+				seen[parts[1]] = map[string][]int{}
+			}
+			seen[parts[1]][parts[2]] = append(seen[parts[1]][parts[2]], w)
+		}
+	}
+	var out []core.Violation
+	byProg := map[string]bool{}
+	for _, key := range sortedKeys(seen) {
+		if len(seen[key]) < 2 {
+			continue
+		}
+		f := strings.Split(key, "/") // base/prog/ep/variant
+		if len(f) != 4 || byProg[f[1]] {
+			continue
+		}
+		byProg[f[1]] = true
+		v, _ := strconv.Atoi(f[3])
+		wit := c10Case{Kind: "seq", Base: f[0] == "true", Steps: []c10Step{{f[1], f[2], v}}}
+		raw, _ := json.Marshal(wit)
+		var desc []string
+		for _, h := range sortedKeys(seen[key]) {
+			desc = append(desc, fmt.Sprintf("hash %s in worker processes %v", h, seen[key][h]))
+		}
+		out = append(out, core.Violation{Sig: "bytes-differ-between-processes/" + f[1], Case: raw,
+			Detail: fmt.Sprintf("a fresh engine rendering program %s (%s, data variant %s) produced different bytes in different worker processes, which differ only in what they rendered before: %s", f[1], f[2], f[3], strings.Join(desc, "; "))})
+	}
+	return out
+}
+
 func (p *c10) Decode(raw json.RawMessage) (any, error) { return core.JSONDecode[c10Case](raw) }
 
 func (p *c10) files(base bool) map[string]string {
@@ -151,6 +193,10 @@ func (p *c10) reference(base bool, st c10Step, o *core.Obs) c10Ref {
 	out, err := newCatEngine(memFS(p.files(base))).run(prog, st.EP, prog.Variant(st.V))
 	o.Evals++
 	r = c10Ref{out: out, err: errStr(err)}
+	// recorded once per process: the monitor compares it with what the other worker processes got (CrossCheck)
+	h := fnv.New64a()
+	h.Write([]byte(out + "\x00" + errStr(err)))
+	o.Cell(fmt.Sprintf("xproc|%s|%016x", key, h.Sum64()))
 	p.mu.Lock()
 	p.ref[key] = r
 	p.mu.Unlock()
